@@ -2,6 +2,7 @@ package main
 
 import (
 	"fmt"
+	"os"
 	"go/token"
 	"go/types"
 	"strings"
@@ -812,27 +813,53 @@ func (a *act) localVar(name string, header *ssa.BasicBlock, st *State) (Val, boo
 			}
 		}
 	}
-	// DebugRefs: last value bound to that name in a block dominating the header (or anywhere if header is nil)
+	// DebugRefs: a variable assigned once has a single non-constant SSA value; otherwise take the last value bound in a
+	// block dominating the header.
 	var best ssa.Value
 	var bestAddr bool
+	distinct := map[ssa.Value]bool{}
+	var only ssa.Value
+	var onlyAddr bool
+	var constCand ssa.Value
 	for _, b := range a.fn.Blocks {
-		if header != nil && !(b.Dominates(header)) {
-			continue
-		}
 		for _, in := range b.Instrs {
-			if d, ok := in.(*ssa.DebugRef); ok {
-				if obj := d.Object(); obj != nil && obj.Name() == name {
-					if _, isVar := obj.(*types.Var); isVar {
-						if _, computed := a.vals[d.X]; computed || isConstOrParam(d.X) {
-							if header != nil && b == header {
-								continue
-							}
-							best, bestAddr = d.X, d.IsAddr
-						}
-					}
+			d, ok := in.(*ssa.DebugRef)
+			if !ok {
+				continue
+			}
+			obj := d.Object()
+			if obj == nil || obj.Name() != name {
+				continue
+			}
+			vv, isVar := obj.(*types.Var)
+			if !isVar || vv.IsField() {
+				continue
+			}
+			if _, isConst := d.X.(*ssa.Const); isConst {
+				if constCand == nil {
+					constCand = d.X
 				}
+				continue
+			}
+			if !distinct[d.X] {
+				distinct[d.X] = true
+				only, onlyAddr = d.X, d.IsAddr
+			}
+			if header != nil && (!b.Dominates(header) || b == header) {
+				continue
+			}
+			if _, computed := a.vals[d.X]; computed || isConstOrParam(d.X) {
+				best, bestAddr = d.X, d.IsAddr
 			}
 		}
+	}
+	if len(distinct) == 1 {
+		if _, computed := a.vals[only]; computed || isConstOrParam(only) {
+			best, bestAddr = only, onlyAddr
+		}
+	}
+	if best == nil && constCand != nil && len(distinct) == 0 {
+		best = constCand
 	}
 	if best == nil {
 		// parameters
@@ -844,6 +871,9 @@ func (a *act) localVar(name string, header *ssa.BasicBlock, st *State) (Val, boo
 		return Val{}, false
 	}
 	v := a.val(best, st)
+	if os.Getenv("GOVC_DEBUG") != "" {
+		fmt.Fprintf(os.Stderr, "localVar %s -> %s (%T) = %s addr=%v\n", name, best.Name(), best, v.T, bestAddr)
+	}
 	if bestAddr {
 		loc := a.cellLoc(v)
 		elem := derefType(best.Type())
